@@ -9,7 +9,8 @@ open MontePyVerif.ListBasics
 open MontePyVerif.Reader (pyIsSpace)
 
 /-- what the *code* needs of a rendered data line beyond `DLineOK`: no character that Python counts as white space
-    inside a word, only blanks as white space in a `$` comment, room for the line end, no `#` in columns 1-5 -/
+    inside a word, only blanks as white space in a `$` comment, room for the line end, and the line does not begin
+    with a `#` within columns 1-5 (vertical format) -/
 structure DLineM (limit : Nat) (d : DLine) : Prop where
   first : ∀ c ∈ d.first, pyIsSpace c = false
   rest : ∀ p ∈ d.rest, ∀ c ∈ p.2, pyIsSpace c = false
@@ -18,7 +19,7 @@ structure DLineM (limit : Nat) (d : DLine) : Prop where
     | .dollar _ x => OnlyBlanks x
     | _ => True
   fits : d.str.length < limit
-  noHash : (d.str.take Gen.blankSpaceContinue).contains '#' = false
+  noHash : hashFirst d.str = false
 
 structure CommentM (limit : Nat) (c : Nat × Line) : Prop where
   text : OnlyBlanks c.2
@@ -97,7 +98,7 @@ theorem getLast?_append_blanks (A : Line) (k : Nat) : (A ++ List.replicate (k + 
 theorem goodLine_data {limit : Nat} (d : DLine) (ok : DLineOK limit d) (m : DLineM limit d) : GoodLine limit d.str where
   onlyBlanks := onlyBlanks_str d m
   fits := m.fits
-  noVertical := by intro h; rw [m.noHash] at h; exact absurd h (by decide)
+  noVertical := m.noHash
   noAmpDollar := by
     intro _ hd
     rw [endsAmp_str d ok.first ok.rest]
@@ -167,7 +168,20 @@ theorem goodLine_comment {limit : Nat} (c : Nat × Line) (ok : CommentOK limit c
     · exact onlyBlanks_cons (fun h => absurd h (by decide)) (fun _ h => by simp at h)
     · exact onlyBlanks_cons (fun h => absurd h (by decide)) (onlyBlanks_cons (fun _ => rfl) m.text)
   fits := m.fits
-  noVertical := fun _ => isCommentLine_commentLine c ok.ind
+  noVertical := by
+    unfold hashFirst commentLine
+    rw [List.take_append]
+    by_cases hA : ((List.replicate c.1 ' ').take Gen.blankSpaceContinue).dropWhile (fun c => decide (c = ' ')) = []
+    · rw [dropWhile_append_of_all _ _ _ ((dropWhile_eq_nil _ _).mp hA)]
+      have h5 : Gen.blankSpaceContinue - (List.replicate c.1 ' ').length = (4 - c.1) + 1 := by
+        have := ok.ind; simp [Gen.blankSpaceContinue]; omega
+      rw [h5]
+      split <;> simp [Reader.startsWith]
+    · exfalso; apply hA
+      rw [dropWhile_eq_nil]
+      intro x hx
+      have := List.mem_of_mem_take hx
+      rw [(List.mem_replicate.mp this).2]; simp
   noAmpDollar := by intro h; rw [isCommentLine_commentLine c ok.ind] at h; exact absurd h (by decide)
   hasWords := by intro _ h; rw [isCommentLine_commentLine c ok.ind] at h; exact absurd h (by decide)
   dollarSpaced := by intro h; rw [isCommentLine_commentLine c ok.ind] at h; exact absurd h (by decide)
@@ -180,10 +194,10 @@ def PLineOK (limit : Nat) (pl : PLine) : Prop :=
 theorem kindOf_ne_blank (pl : PLine) : kindOf pl ≠ .blank := by
   cases pl <;> simp [kindOf]
 
-/-- **every valid rendering is `FileOK`** (read from any block `start < 3`) -/
-theorem fileOK_render (limit start : Nat) (hs : start < 3) (pls : List PLine) (h : ∀ pl ∈ pls, PLineOK limit pl) :
-    FileOK limit start (pls.map (fun pl => pl.str ++ ['\n'])) (pls.map PLine.str) := by
-  refine ⟨pls.map (fun pl => (pl.str, ['\n'])), ?_, ?_, ?_, ?_⟩
+/-- **every valid rendering is `FileOK`** -/
+theorem fileOK_render (limit : Nat) (pls : List PLine) (h : ∀ pl ∈ pls, PLineOK limit pl) :
+    FileOK limit (pls.map (fun pl => pl.str ++ ['\n'])) (pls.map PLine.str) := by
+  refine ⟨pls.map (fun pl => (pl.str, ['\n'])), ?_, ?_, ?_⟩
   · rw [List.map_map]; rfl
   · rw [List.map_map]; rfl
   · intro q hq
@@ -193,20 +207,5 @@ theorem fileOK_render (limit start : Nat) (hs : start < 3) (pls : List PLine) (h
     cases pl with
     | data d => exact goodLine_data d this.1 this.2
     | comment c => exact goodLine_comment c this.1 this.2
-  · apply wt_noBlank start hs
-    intro k hk
-    rw [List.map_map] at hk
-    obtain ⟨pl, hpl, rfl⟩ := List.mem_map.mp hk
-    have := h pl hpl
-    simp only [Function.comp]
-    cases pl with
-    | data d =>
-      have hc := classify_data d this.1
-      rw [classify_good (goodLine_data d this.1 this.2)] at hc
-      simp only [PLine.str]; rw [hc]; exact kindOf_ne_blank _
-    | comment c =>
-      have hc := classify_comment c this.1
-      rw [classify_good (goodLine_comment c this.1 this.2)] at hc
-      simp only [PLine.str]; rw [hc]; simp
 
 end MontePyVerif.LayoutModel
